@@ -154,11 +154,77 @@ def else_after_return(tree):
     return R().visit(tree)
 
 
+def extract_call_args(tree):
+    """`T = f(g(x), ..)` / `f(g(x))` / `return f(g(x))` as a simple statement -> `arg_tmpN = g(x)` in front, `f(arg_tmpN)`: only the FIRST
+    positional argument of the outermost call, and only when it is itself a call (evaluation order is unchanged: it was evaluated first)."""
+    class R(ast.NodeTransformer):
+        def __init__(self):
+            self.k = 0
+
+        def _block(self, body):
+            out = []
+            for st in body:
+                v = st.value if isinstance(st, (ast.Assign, ast.Expr, ast.Return)) else None
+                if isinstance(v, ast.Call) and v.args and isinstance(v.args[0], ast.Call) and not isinstance(v.func, ast.Lambda) \
+                        and isinstance(v.func, (ast.Name, ast.Attribute)) \
+                        and not any(isinstance(x, ast.Call) for x in ast.walk(v.func)) \
+                        and not any(isinstance(x, (ast.Yield, ast.YieldFrom, ast.Await, ast.NamedExpr, ast.Starred)) for x in ast.walk(v)):
+                    nm = 'arg_tmp%d' % self.k
+                    self.k += 1
+                    out.append(ast.copy_location(ast.Assign(targets=[ast.Name(id=nm, ctx=ast.Store())], value=v.args[0]), st))
+                    v.args[0] = ast.Name(id=nm, ctx=ast.Load())
+                out.append(st)
+            return out
+
+        def generic_visit(self, n):
+            super().generic_visit(n)
+            for fld in ('body', 'orelse', 'finalbody'):
+                b = getattr(n, fld, None)
+                if isinstance(b, list) and b and isinstance(b[0], ast.stmt):
+                    setattr(n, fld, self._block(b))
+            if isinstance(n, ast.Try):
+                for h in n.handlers:
+                    h.body = self._block(h.body)
+            return n
+    for f in list(_functions(tree)):
+        if any(isinstance(x, (ast.FunctionDef, ast.AsyncFunctionDef, ast.Lambda)) and x is not f for x in ast.walk(f)):
+            continue
+        R().generic_visit(f)
+    return tree
+
+
+def split_tuple_assign(tree):
+    """`a, b = x, y` (plain names on the left, no name of the left used on the right) -> `a = x; b = y`"""
+    class R(ast.NodeTransformer):
+        def _block(self, body):
+            out = []
+            for st in body:
+                if isinstance(st, ast.Assign) and len(st.targets) == 1 and isinstance(st.targets[0], ast.Tuple) and isinstance(st.value, ast.Tuple) \
+                        and len(st.targets[0].elts) == len(st.value.elts) and all(isinstance(t, ast.Name) for t in st.targets[0].elts):
+                    names = {t.id for t in st.targets[0].elts}
+                    if not any(isinstance(x, ast.Name) and x.id in names for v in st.value.elts for x in ast.walk(v)) \
+                            and not any(isinstance(x, ast.Call) for v in st.value.elts for x in ast.walk(v)):
+                        for t, v in zip(st.targets[0].elts, st.value.elts):
+                            out.append(ast.copy_location(ast.Assign(targets=[t], value=v), st))
+                        continue
+                out.append(st)
+            return out
+
+        def generic_visit(self, n):
+            super().generic_visit(n)
+            for fld in ('body', 'orelse', 'finalbody'):
+                b = getattr(n, fld, None)
+                if isinstance(b, list) and b and isinstance(b[0], ast.stmt):
+                    setattr(n, fld, self._block(b))
+            return n
+    return R().visit(tree)
+
+
 def unparse_only(tree):
     return tree
 
 
-TRANSFORMS = {'return-temp': return_temp, 'else-after-return': else_after_return, 'dot-to-matmul': dot_to_matmul, 'compare-swap': compare_swap, 'rename-locals': rename_locals, 'swap-commute': swap_commute, 'flip-if-else': flip_if_else, 'unparse': unparse_only}
+TRANSFORMS = {'extract-call-args': extract_call_args, 'split-tuple-assign': split_tuple_assign, 'return-temp': return_temp, 'else-after-return': else_after_return, 'dot-to-matmul': dot_to_matmul, 'compare-swap': compare_swap, 'rename-locals': rename_locals, 'swap-commute': swap_commute, 'flip-if-else': flip_if_else, 'unparse': unparse_only}
 
 
 def run_one(args):
